@@ -60,6 +60,11 @@ pub struct Scenario {
     pub schedule: Vec<u8>,
     pub scheduler: String,
     pub tail: Vec<Tail>,
+    /// executed checks (C16-C20): what to call on the emitted module, and the anchors of the program
+    #[serde(default)]
+    pub exec: Option<crate::progen::ExecPlan>,
+    #[serde(default)]
+    pub info: Option<crate::progen::ProgInfo>,
 }
 
 impl Scenario {
